@@ -33,10 +33,11 @@ CONSTANTS Versions,     \* versions to enumerate (the initial state chooses one)
           CorruptMax    \* programs of <= CorruptMax tokens derived at Lua 5.5 are also emitted with one token
                         \* dropped / duplicated / swapped with its successor (judged by the reference only)
 
-VARIABLES ver, form, lab1, lab2, mut
+VARIABLES ver, form, lab1, lab2, mut, lex
+\* lex: the one LexLit/LexCmt of the program has been used
 \* ver: the version of this derivation; form: sentential form; lab1/lab2: the goto+label unit / the lone
 \* label has been used; mut: <<>> or <<kind, i>> once a terminal form has been corrupted
-vars == <<ver, form, lab1, lab2, mut>>
+vars == <<ver, form, lab1, lab2, mut, lex>>
 Version == ver
 
 V51 == Version = "Lua51"
@@ -52,7 +53,7 @@ HasEsc52 == Ge52 \/ JIT       \* \z \x
 NT == {"chunk", "stats", "stat", "block", "lblock", "ret", "topstat", "topret", "funcname", "funcbody",
        "parlist", "attnamelist", "namelist", "explist", "var", "prefixexp", "call", "args", "exp", "opnd",
        "simple", "functiondef", "table", "fieldlist", "field", "sep", "binop", "unop", "Numeral", "String",
-       "Comment", "globaldecl", "RichLit", "RichBin", "RichUn", "RichCmt"}
+       "Comment", "globaldecl", "RichLit", "RichBin", "RichUn", "RichCmt", "LexLit", "LexCmt"}
 
 Binops == {"+", "-", "*", "/", "^", "%", "..", "<", "<=", ">", ">=", "==", "~=", "and", "or"}
           \cup (IF Ge53 THEN {"//", "&", "~", "|", ">>", "<<"} ELSE {})
@@ -66,6 +67,32 @@ Strings == {"\"s\"", "'s'", "[[s]]", "[==[s]]]==]", "\"\\n\\065\\\"\""}
            \cup (IF HasEsc52 THEN {"\"\\x41\\z  \""} ELSE {})
            \cup (IF Ge53 THEN {"\"\\u{48}\""} ELSE {})
 Comments == {"--c\n", "--[[c]]", "--[==[c]]c]==]"}
+
+\* ---- the complete lexical alphabet of strings and comments (LexLit / LexCmt: at most ONE of them per program,
+\* variable `lex`, so that the alphabet grows the case set linearly).  Strings are built with \o so that every
+\* line-break form of the reference (llex.c inclinenumber: LF, CR, CR LF, LF CR each count as ONE break) appears
+\* with every construct that may contain a break: backslash-newline (all versions), \z + white space (5.2+,
+\* LuaJIT), long brackets, short comments.
+LB == {"\n", "\r", "\r\n", "\n\r"}
+\* backslash + line break continues a short string (5.1 manual 2.1; unchanged since)
+EscNL == {"\"a\\" \o lb \o "b\"" : lb \in LB}            \* in the middle
+         \cup {"'\\" \o lb \o "'" : lb \in LB}            \* as the whole content, single-quoted
+         \cup {"\"\\\n\\\r\\\r\n\\\n\rb\""}               \* four escaped breaks in a row, one of each form
+\* C-like escapes, \ddd (1-3 digits, also followed by a digit), escaped quotes of either kind, empty strings
+EscOld == {"\"\\a\\b\\f\\n\\r\\t\\v\\\\\\\"\\'\"", "'\\a\\b\\f\\n\\r\\t\\v\\\\\\\"\\''",
+           "\"\\0\\65\\065\\2550\"", "'\\\\'", "\"\\\\\\\\\"", "\"\"", "''"}
+\* long brackets: a `]` / `]=` / `]==` run that is NOT the closing delimiter directly before the real one;
+\* line breaks of every form inside
+LongStr == {"[=[s]]=]", "[==[s]=]==]", "[=[s]==]=]", "[[s]=]]", "[=[]]=]", "[==[]==]", "[[\r\ns\n]]", "[=[\n\rs]\r]=]"}
+\* 5.2: \xXX, \z (skips white space including any sequence of line breaks; may be followed by nothing to skip)
+Esc52 == {"\"\\x7f\\xFF\\x0a\"", "\"\\z\r\n\n\r \t\r\n b\"", "\"\\zb\"", "\"a\\z\"", "'a\\z \n'"}
+         \cup {"\"a\\z" \o lb \o "  b\"" : lb \in LB}
+\* 5.3: \u{XXX}
+Esc53 == {"\"\\u{0}\\u{10FFFF}\""}
+LexStrings == EscOld \cup EscNL \cup LongStr \cup (IF HasEsc52 THEN Esc52 ELSE {}) \cup (IF Ge53 THEN Esc53 ELSE {})
+LexComments == {"--c\r\n", "--c\r", "--c\n\r", "--\n", "--[=[c]]=]", "--[==[c]=]==]", "--[=[c]==]=]", "--[[c]=]]",
+                "--[[c\r\nc]]", "--[=[\n]]=]"}
+LexNT == {"LexLit", "LexCmt"}
 
 Seqs(S) == {<<x>> : x \in S}
 
@@ -93,7 +120,7 @@ Prods(nt) ==
           <<"local", "attnamelist">>, <<"local", "attnamelist", "=", "explist">>,
           <<"Comment">>}
          \cup (IF Rich THEN {<<"a", "=", "RichLit">>, <<"a", "=", "a", "RichBin", "a">>, <<"a", "=", "RichUn", "a">>,
-                              <<"RichCmt">>} ELSE {})
+                              <<"RichCmt">>, <<"a", "=", "LexLit">>, <<"a", "LexCmt", "(", ")">>} ELSE {})
          \cup (IF HasEmptyStat THEN {<<";">>} ELSE {})
          \cup (IF HasGoto THEN {<<"goto", "l1", "::", "l1", "::">>, <<"::", "l2", "::">>} ELSE {})
          \* statement separator after a statement (all versions): `stat ;`
@@ -134,6 +161,8 @@ Prods(nt) ==
     [] nt = "RichBin" -> Seqs(Binops)
     [] nt = "RichUn" -> Seqs(Unops)
     [] nt = "RichCmt" -> Seqs(Comments)
+    [] nt = "LexLit" -> Seqs(LexStrings)
+    [] nt = "LexCmt" -> Seqs(LexComments)
     [] OTHER -> {}
 
 \* minimal number of tokens a symbol yields (for pruning)
@@ -154,7 +183,7 @@ MinYield(f) == IF f = <<>> THEN 0 ELSE MinLen(Head(f)) + MinYield(Tail(f))
 FirstNT(f) == LET idx == {i \in 1..Len(f) : f[i] \in NT} IN
               IF idx = {} THEN 0 ELSE CHOOSE i \in idx : \A j \in idx : i <= j
 
-Init == ver \in Versions /\ form = <<"chunk">> /\ lab1 = FALSE /\ lab2 = FALSE /\ mut = <<>>
+Init == ver \in Versions /\ form = <<"chunk">> /\ lab1 = FALSE /\ lab2 = FALSE /\ mut = <<>> /\ lex = FALSE
 
 Expand ==
   LET i == FirstNT(form) IN
@@ -162,11 +191,12 @@ Expand ==
   /\ \E p \in Prods(form[i]) :
        LET uses1 == Len(p) > 0 /\ p[1] = "goto" /\ Len(p) = 5
            uses2 == Len(p) = 3 /\ p[1] = "::"
+           usesL == \E k \in 1..Len(p) : p[k] \in LexNT
            nf == SubSeq(form, 1, i - 1) \o p \o SubSeq(form, i + 1, Len(form))
-       IN /\ ~(uses1 /\ lab1) /\ ~(uses2 /\ lab2)
+       IN /\ ~(uses1 /\ lab1) /\ ~(uses2 /\ lab2) /\ ~(usesL /\ lex)
           /\ MinYield(nf) <= MaxTokens
           /\ form' = nf
-          /\ lab1' = (lab1 \/ uses1) /\ lab2' = (lab2 \/ uses2)
+          /\ lab1' = (lab1 \/ uses1) /\ lab2' = (lab2 \/ uses2) /\ lex' = (lex \/ usesL)
 
 Terminal == FirstNT(form) = 0
 
@@ -174,7 +204,7 @@ Terminal == FirstNT(form) = 0
 \* reference implementation to say
 Corrupt ==
   /\ Terminal /\ mut = <<>> /\ ver = "Lua55" /\ Len(form) >= 1 /\ Len(form) <= CorruptMax
-  /\ UNCHANGED <<ver, lab1, lab2>>
+  /\ UNCHANGED <<ver, lab1, lab2, lex>>
   /\ \E i \in 1..Len(form) :
        \/ /\ mut' = <<"drop", i>>
           /\ form' = SubSeq(form, 1, i - 1) \o SubSeq(form, i + 1, Len(form))
@@ -195,7 +225,7 @@ Spec == Init /\ [][Next]_vars
 \* character after an unknown escape and reads numerals with the C library, so 5.2/5.3 escapes and hex floats
 \* load).  The driver replaces such lexemes by the plain representative before consulting derivability.
 NegVersions == {"Lua51", "Lua52", "Lua53", "Lua54", "Lua55"}
-SoftLex(v) == IF v = "Lua51" THEN {"0x.8p1", "0xA.8", "\"\\x41\\z  \"", "\"\\u{48}\""} ELSE {}
+SoftLex(v) == IF v = "Lua51" THEN {"0x.8p1", "0xA.8", "\"\\x41\\z  \"", "\"\\u{48}\""} \cup Esc52 \cup Esc53 ELSE {}
 Table == [neg |-> NegVersions \cap Versions, soft |-> [v \in Versions |-> SoftLex(v)],
           plain_num |-> "1", plain_str |-> "\"s\""]
 
